@@ -9,7 +9,7 @@
 // @reach transport.done
 // @funcs Phreeqc::transport; Phreeqc::transport_cleanup
 // @bounds the real TRANSPORT driver (transport(): set-up, shift loop, advective step, mixing runs) with every callee that computes chemistry replaced by a recorder: columns of 1..3 cells, 1..2 shifts, flow forward / backward / diffusion only, 0..2 mixing runs per shift (what init_mix returns), kinetic reactants defined in every cell or in none (then the times handed out are immaterial and only their sign is checked), boundary conditions flux or constant (case split); time step symbolic in [1,1e6] s
-// @oracle kinetic reactions integrate exactly the time that passes: in every shift the reaction times handed to run_reactions for the column cells add up to (number of cells) x (time step) - the resident water of the first cell of an advective column of two or more cells is given half a step before it moves on and the inflowing water the other half, a one-cell column gets exactly one step - whatever the number of mixing runs, the flow direction and the boundary conditions; boundary cells are never given reaction time; no call gets a negative time
+// @oracle kinetic reactions integrate exactly the time that passes: in every shift the reaction times handed to run_reactions for the column cells add up to (number of cells) x (time step) and every cell is given exactly one time step per shift - the resident water of the first cell of an advective column of two or more cells is given half a step before it moves on and the inflowing water the other half, a one-cell column gets exactly one step - whatever the number of mixing runs, the flow direction and the boundary conditions; boundary cells are never given reaction time; no call gets a negative time
 // @stubs Phreeqc::run_reactions (records cell and time), init_mix (returns the chosen number of mixing runs), init_heat_mix, set_initial_moles, set_and_run_wrapper, saver, print_punch, fill_spec, mix_stag, heat_mix, multi_D, diffuse_implicit, disp_surf, mobile_surface_copy, dump, dup_print, status, screen_msg, error_msg, warning_msg, sformatf
 // @outside stagnant zones (C11.stagnant_exchange_conserves covers their mixing factors), multicomponent and implicit diffusion, thermal diffusion
 // @id C11.stagnant_exchange_conserves
@@ -114,6 +114,13 @@ extern "C" void vfh_C12_transport_time(void)
 			if (g_cell[k] >= 1 && g_cell[k] <= cells) column += g_time[k];
 		}
 		if (kin) vf_close("time.column_reaction_time_is_cells_times_step", column, cells * dt, 1e-12, 0);
+		/* ... and every cell integrates exactly one time step per shift (the inflow cell in two halves) */
+		if (kin) for (int c = 1; c <= cells; c++)
+		{
+			double own = 0;
+			for (int k = 0; k < g_ncalls; k++) if (g_step[k] == s && g_cell[k] == c) own += g_time[k];
+			vf_close("time.each_cell_integrates_one_step_per_shift", own, dt, 1e-12, 0);
+		}
 	}
 	vf_check("time.calls_recorded", g_ncalls > 0 && g_ncalls < 256);
 }
